@@ -4,3 +4,10 @@ import VProps.C09
 #print axioms V.C09.verdicts_history_independent
 #print axioms V.C09.allowedFresh_eq
 #print axioms V.C09.freshOf_congr
+#print axioms V.C09.verdict_needs_only_needed
+#print axioms V.C09.verdict_needs_only_needed_exact
+#print axioms V.C09.insertion_order_irrelevant
+#print axioms V.C09.unrelated_state_irrelevant
+#print axioms V.C09.unrelated_state_added
+#print axioms V.C09.add_auth_events_sufficient
+#print axioms V.C09.ofEvents_sameRoom
